@@ -140,8 +140,8 @@ class CParser(RecursiveDescentParser):
             "<=": (LEFT_ASSOCIATIVE, 70),
             ">": (LEFT_ASSOCIATIVE, 70),
             ">=": (LEFT_ASSOCIATIVE, 70),
-            "!=": (LEFT_ASSOCIATIVE, 70),
-            "==": (LEFT_ASSOCIATIVE, 70),
+            "!=": (LEFT_ASSOCIATIVE, 65),
+            "==": (LEFT_ASSOCIATIVE, 65),
             ">>": (LEFT_ASSOCIATIVE, 80),
             "<<": (LEFT_ASSOCIATIVE, 80),
             "+": (LEFT_ASSOCIATIVE, 90),
